@@ -44,7 +44,7 @@ impl Property for C12 {
             world.rand = rng.bytes16();
         }
         // a closed stdout swallows the output the model is compared with
-        if world.stdout == 3 {
+        if world.stdout == 3 || world.stdout == 9 {
             world.stdout = 5;
         }
         // a third of the cases under I/O schedules that must be invisible: short and chunked
